@@ -27,6 +27,14 @@ THEOREMS = [
     "Qentem.Props.C10.format_eq_spec_partial",
     "Qentem.Props.C10.format_eq_spec_integers",
     "Qentem.Props.C10.integer_valued_of_big",
+    "Qentem.Props.C10.format_eq_spec_integers32",
+    "Qentem.Props.C10.integer_valued_of_big32",
+    "Qentem.Props.C10.format_eq_spec_short_fractions",
+    "Qentem.Props.C10.format_eq_spec_integers_default",
+    "Qentem.Props.C10.format_eq_spec_integers_default_all",
+    "Qentem.Props.C10.digit_estimate_exact",
+    "Qentem.Props.C10.digits_exact_or_sticky",
+    "Qentem.Props.C10.digits_exact_or_sticky32",
     "Qentem.Props.C10.format_eq_spec_witnesses",
 ]
 OPEN = [
